@@ -120,7 +120,7 @@ def optInt : Option Nat → Int
   | none => -1
 
 theorem optInt_inj (a b : Option Nat) (h : optInt a = optInt b) : a = b := by
-  cases a <;> cases b <;> simp [optInt] at h ⊢ <;> omega
+  cases a <;> cases b <;> simp only [optInt] at h <;> first | rfl | omega | (congr 1; omega)
 
 /-- one iteration of the source's loop on atom `i` = the model's test: strict `d < bestd`, distance to the canonical
 centre `(½,½,½)` in the structure's lattice, `best = i`, `bestd = d` -/
@@ -188,11 +188,6 @@ theorem centreAtom_eq (T : Stru α β) :
   unfold Src.Shape.pyGet
   rw [centreIndex_eq]
   cases centreIndex T <;> rfl
-
-/-- **defaults and `sabc`**: `if b is None: b = a`, `if c is None: c = a`, `sabc = array([a, b, c])` -/
-theorem sabc_eq (a : α) (b c : Option α) :
-    (⟨a, (match b with | none => a | some w => w), (match c with | none => a | some w => w)⟩ : Vec3 α) = ⟨a, b.getD a, c.getD a⟩ := by
-  cases b <;> cases c <;> rfl
 
 /-- **the deletion test**: `d = sum(((xyz - cxyz) / sabc) ** 2) ** 0.5`, delete when `d > 1` (strict) -/
 theorem cut_step_eq (sabc cxyz : Vec3 α) (T : Stru α β) (dl : List Int) (n i : Nat) (a : Atom α β) (h : T.atoms[n]? = some a) :
